@@ -21,6 +21,14 @@ entry, round trip (exact for INTEGER / DISCRETE / CATEGORICAL when the dtype
 can separate the feasible values, floating-point tolerance for DOUBLE),
 decode of arbitrary finite arrays into the space (clipping on), decode to the
 nearest feasible value, metric label sign and round trip.
+
+Purity / repeatability monitors (a round trip that only holds for the first call
+is not invertibility): every numpy array handed to a decoder (to_parameters,
+to_metrics in both documented label shapes (num,) and (num, 1), to_trials) is
+bitwise unchanged afterwards, decoding the same array a second time gives the
+same parameters / metric values, convert(measurements) gives the same labels on
+a second call, and to_features / ProblemAndTrialsScaler.map / unmap leave the
+trials they were given untouched.
 """
 import math
 
@@ -39,7 +47,12 @@ RULE = ('flat spaces from vv.gen (1..6 parameters: DOUBLE unit/neg/tiny/huge/pos
         'every bound and the midpoint (BOOL values spelled as Python bools in ~40% of the '
         'rows, oracle on the canonical \'True\'/\'False\'), then 7 classes of arbitrary finite arrays '
         '(unit, uniform[-2,3], exact 0/1, edges, +-1e6, dtype extremes, '
-        'subnormals). METRIC cases: goal x flip x dtype x value class. A case is '
+        'subnormals). METRIC cases: goal x flip x dtype x value class x route (direct with '
+        '(num,1) labels, direct with (num,) labels, DTC to_trials, T2A and PADDED metric '
+        'converters with (num,1) / (num,) labels alternating per block of 60). Every decode '
+        'call is additionally monitored for purity (argument arrays bitwise unchanged) and '
+        'the encoded points / labels are decoded a second time from the same array '
+        '(same answer demanded). A case is '
         'non-trivial when at least one non-singleton parameter was round-tripped '
         '(metric: one finite value); distinct = hash(subject, options, space '
         'shape, array class).')
@@ -62,6 +75,11 @@ ASSUMPTIONS = [
     '(SearchSpace.contains accepts both, ParameterValue.as_str normalises); decoding must '
     'return the string spelling',
     'safety metrics are excluded from the label round trip (property text)',
+    'a conversion is a read of its arguments: "decoding returns the original values" is '
+    'demanded of every decode of the same array, not only of the first one, hence the '
+    'caller\'s numpy arrays must be bitwise unchanged by to_parameters / to_metrics / '
+    'to_trials and trials unchanged by to_features / map / unmap (jax arrays are immutable '
+    'and not snapshotted)',
     'metric values that overflow / underflow the label dtype are excluded',
 ]
 MIN_DISTINCT = {'quick': 400, 'thorough': 4000}
@@ -127,7 +145,13 @@ REQUIRED_COUNTERS = (
      'label_sign_checked', 'padded_shapes_checked', 'scaler_unmap_roundtrips',
      'fmap_roundtrips', 't2mi_to_trials_checked', 'dtc_to_trials_checked',
      'dtc_factory_used', 'bool_values_spelled_as_python_bool',
-     'bool_python_spelling:DTC', 'bool_python_spelling:T2A']
+     'bool_python_spelling:DTC', 'bool_python_spelling:T2A',
+     'label_decode_pure_checked:1d', 'label_decode_pure_checked:2d',
+     'label_decode_pure_checked:MINIMIZE:flip', 'label_decode_pure_checked:MINIMIZE:noflip',
+     'label_decode_pure_checked:MAXIMIZE:flip', 'label_decode_pure_checked:MAXIMIZE:noflip',
+     'label_encode_repeat_checked', 'decode_input_unchanged_checked',
+     'decode_repeat_checked', 'encode_trials_unchanged_checked',
+     'decode_trials_unchanged_checked']
     )
 # The per-option-tuple counters ('rt:<tuple>', 'arb:<tuple>') stay in the evidence,
 # but a starved shard on a loaded machine must not turn the whole run
@@ -618,6 +642,37 @@ def check_roundtrip_param(R, p, m, o, values, decoded, eps, dt, unrep):
   return nontrivial
 
 
+def frozen(x):
+  """Bitwise snapshot of the numpy arrays handed to a converter (array, or dict of
+  arrays); None for anything else (jax arrays are immutable)."""
+  if isinstance(x, np.ndarray):
+    return (x.shape, str(x.dtype), x.tobytes())
+  if isinstance(x, dict) and all(isinstance(v, np.ndarray) for v in x.values()):
+    return {k: frozen(v) for k, v in x.items()}
+  return None
+
+
+def trial_params(trials):
+  return repr([sorted((k, repr(raw(v))) for k, v in t.parameters.items()) for t in trials])
+
+
+def plain_dicts(pdicts):
+  return repr([sorted((k, repr(raw(v))) for k, v in d.items()) for d in pdicts])
+
+
+def check_pure(R, what, mech_tail, before, x):
+  """A conversion is a read of its argument: the caller's arrays are bitwise unchanged."""
+  if before is None:
+    return True
+  R.ctx.count(what + '_input_unchanged_checked')
+  if frozen(x) != before:
+    R.v(f'{what}-mutates-input:{mech_tail}', f'{what}: the array handed to the converter was '
+        'modified in place by the call (a later conversion of the same array gives '
+        'different values)', {'opts': R.case.get('opts')})
+    return False
+  return True
+
+
 def raw(pv):
   return pv.value if hasattr(pv, 'value') and not isinstance(pv, (int, float, str)) else pv
 
@@ -867,8 +922,14 @@ def run_inputs_case(ctx, case):
         return False
     # ---- encode ------------------------------------------------------------
     stage = 'to_features'
+    tp0 = trial_params(trials)
     with np.errstate(all='ignore'):
       feats = conv.to_features(trials)
+    ctx.count('encode_trials_unchanged_checked')
+    if trial_params(trials) != tp0:
+      R.v(f'encode-mutates-trials:{subject}', 'to_features changed the parameters of the trials '
+          'it was given', {'opts': o})
+      return False
     blocks = {}
     if subject == 'DTC':
       if list(feats.keys()) != [p['name'] for p in desc]:
@@ -948,15 +1009,23 @@ def run_inputs_case(ctx, case):
       unrep[p['name']] = u
     # ---- decode the encoded points -------------------------------------------
     stage = 'to_parameters'
+    dec_in = feats if subject in ('DTC', 'T2MI') else arr if subject == 'T2A' else flat
+    snap = frozen(dec_in)
     with np.errstate(all='ignore'):
-      if subject == 'DTC':
-        pd = conv.to_parameters(feats)
-      elif subject == 'T2A':
-        pd = conv.to_parameters(arr)
-      elif subject == 'PADDED':
-        pd = conv.to_parameters(flat)[:n]
-      else:
-        pd = conv.to_parameters(feats)
+      pd = conv.to_parameters(dec_in)
+      if not check_pure(R, 'decode', f'{subject}:encoded-points', snap, dec_in):
+        return False
+      # decoding is a function of the array: the same array decodes the same way again
+      stage = 'to_parameters-again'
+      pd_again = conv.to_parameters(dec_in)
+      stage = 'to_parameters'
+    ctx.count('decode_repeat_checked')
+    if plain_dicts(pd_again) != plain_dicts(pd):
+      R.v(f'decode-not-repeatable:{subject}', 'to_parameters gives different parameters when '
+          'called a second time on the same feature array', {'opts': o})
+      return False
+    if subject == 'PADDED':
+      pd = pd[:n]
     if len(pd) != n:
       R.v(f'decode-count:{subject}', f'{len(pd)} parameter dicts for {n} rows', {'opts': o})
       return False
@@ -1035,14 +1104,22 @@ def run_inputs_case(ctx, case):
           cols[p['name']] = np.stack([gen_column(nrng, c, rows, dt) for _ in range(m['dims'])], axis=1)
       with np.errstate(all='ignore'):
         if subject == 'DTC':
+          snap = frozen(cols)
           pd = conv.to_parameters(cols)
+          if not check_pure(R, 'decode', f'{subject}:arbitrary-array', snap, cols):
+            R.case.setdefault('fired_class', cls)
+            return nontrivial
         elif subject in ('T2A', 'PADDED'):
           a = np.concatenate([cols[s.name] for s in specs], axis=1)
           if subject == 'PADDED':
             extra_cols = flat.shape[1] - a.shape[1]
             if extra_cols:
               a = np.concatenate([a, gen_column(nrng, 'uniform', rows * extra_cols, dt).reshape(rows, -1)], axis=1)
+          snap = frozen(a)
           pd = conv.to_parameters(a)
+          if not check_pure(R, 'decode', f'{subject}:arbitrary-array', snap, a):
+            R.case.setdefault('fired_class', cls)
+            return nontrivial
         else:
           sch = _sched(o)
           cc = (np.concatenate([cols[s.name] for s in sp.continuous], axis=1)
@@ -1123,8 +1200,14 @@ def run_scaler_case(ctx, case):
       scaler = converters.ProblemAndTrialsScaler(problem)
     stage = 'map'
     trials = make_trials(pts, case, ctx)
+    tp0 = trial_params(trials)
     with np.errstate(all='ignore'):
       mapped = scaler.map(trials)
+    ctx.count('encode_trials_unchanged_checked')
+    if trial_params(trials) != tp0:
+      R.v('encode-mutates-trials:SCALER', 'ProblemAndTrialsScaler.map changed the parameters '
+          'of the trials it was given', {'opts': o})
+      return False
     emb = scaler.problem_statement.search_space
     unrep = {}
     for p in desc:
@@ -1178,8 +1261,14 @@ def run_scaler_case(ctx, case):
                         {'param': p, 'value': vals[k], 'mapped': bad[0]})
         ctx.count('scaler_mapped_outside_by_rounding')
     stage = 'unmap'
+    tp0 = trial_params(mapped)
     with np.errstate(all='ignore'):
       back = scaler.unmap(mapped)
+    ctx.count('decode_trials_unchanged_checked')
+    if trial_params(mapped) != tp0:
+      R.v('decode-mutates-input:SCALER:mapped-trials', 'ProblemAndTrialsScaler.unmap changed '
+          'the parameters of the (embedded) trials it was given', {'opts': o})
+      return False
     ctx.count('scaler_unmap_roundtrips')
     ctx.count('roundtrips')
     nontrivial = False
@@ -1341,9 +1430,35 @@ def gen_metric_case(rng, i):
           'goal': ['MINIMIZE', 'MAXIMIZE'][(i // 2) % 2], 'flip': i % 2,
           'dtype': ['f32', 'f64', 'float'][(i // 4) % 3],
           'via': ['direct', 'direct1d', 'dtc', 't2a', 'padded'][(i // 12) % 5],
+          # the per-metric converter of t2a / padded gets the documented (num,) shape
+          # in every other block of 60 cases
+          'shape1d': (i // 60) % 2,
           'with_safety': int(rng.random() < 0.3),
           'raise_missing': int(cls == 'missing' and rng.random() < 0.3),
           'values': [None if v is None else repr(float(v)) for v in vals]}
+
+
+def decode_labels(R, oc, arg, tagk):
+  """to_metrics(arg) with the purity monitors: the label array is only read, and the
+  same labels decode to the same metric values again. Returns values or None (fired)."""
+  ctx = R.ctx
+  shape = f'{arg.ndim}d'
+  snap = frozen(arg)
+  back = [None if b is None else b.value for b in oc.to_metrics(arg)]
+  ctx.count('label_decode_pure_checked:' + shape)
+  ctx.count('label_decode_pure_checked:' + tagk)
+  if frozen(arg) != snap:
+    R.v(f'label-decode-mutates-input:{tagk}:{shape}', f'to_metrics modified the {shape} label '
+        'array it was given in place: converting the same labels back again returns '
+        'different metric values', {'labels_before': np.frombuffer(snap[2], dtype=snap[1]),
+                                    'labels_after': arg})
+    return None
+  again = [None if b is None else b.value for b in oc.to_metrics(arg)]
+  if repr(again) != repr(back):
+    R.v(f'label-decode-not-repeatable:{tagk}:{shape}', f'labels {arg!r} decode to {back!r} and, '
+        f'on a second call with the same array, to {again!r}', None)
+    return None
+  return back
 
 
 def run_metric_case(ctx, case):
@@ -1394,9 +1509,18 @@ def run_metric_case(ctx, case):
         info = oc.metric_information
         stage = 'to_metrics'
         arg = labels.copy()
-        back = oc.to_metrics(arg[:, 0] if via == 'direct1d' else arg)
-        back = [None if b is None else b.value for b in back]
+        arg = arg[:, 0] if via == 'direct1d' else arg
+        back = decode_labels(R, oc, arg, tagk)
+        if back is None:
+          return False
         lab = np.asarray(labels)
+        # convert() is a function of the measurements: a second call gives the same
+        # labels, whatever happened to the first result in between
+        ctx.count('label_encode_repeat_checked')
+        if frozen(np.asarray(oc.convert(meas))) != frozen(lab):
+          R.v(f'label-encode-not-repeatable:{tagk}', 'convert(measurements) gives different labels '
+              'when called a second time', None)
+          return False
       else:
         desc = [{'name': 'x', 'kind': 'DOUBLE', 'lo': 0.0, 'hi': 1.0, 'scale': None, 'default': None}]
         problem = make_problem(desc, metrics_cfg)
@@ -1415,10 +1539,24 @@ def run_metric_case(ctx, case):
           lab = np.asarray(ld['obj'])
           info = conv.metric_information['obj']
           stage = 'to_trials'
-          bt = conv.to_trials(conv.to_features(trials), ld)
-          back = [t.final_measurement.metrics['obj'].value
-                  if t.final_measurement and 'obj' in t.final_measurement.metrics else None
-                  for t in bt]
+          fd = conv.to_features(trials)
+          snap = (frozen(dict(ld)), frozen(dict(fd)))
+
+          def _objs(ts):
+            return [t.final_measurement.metrics['obj'].value
+                    if t.final_measurement and 'obj' in t.final_measurement.metrics else None
+                    for t in ts]
+          back = _objs(conv.to_trials(fd, ld))
+          ctx.count('label_decode_pure_checked:2d')
+          ctx.count('label_decode_pure_checked:' + tagk)
+          if (frozen(dict(ld)), frozen(dict(fd))) != snap:
+            R.v(f'label-decode-mutates-input:{tagk}:dtc', 'to_trials modified the label / feature '
+                'arrays it was given in place', None)
+            return False
+          if repr(_objs(conv.to_trials(fd, ld))) != repr(back):
+            R.v(f'label-decode-not-repeatable:{tagk}:dtc', 'to_trials gives different metric '
+                'values when called a second time on the same labels', None)
+            return False
         else:
           if via == 't2a':
             conv = core.TrialToArrayConverter.from_study_config(
@@ -1447,7 +1585,10 @@ def run_metric_case(ctx, case):
           info = conv.metric_specs[0]
           stage = 'to_metrics'
           oc = conv._impl.metric_converters[0] if via == 't2a' else conv._impl._impl.metric_converters[0]
-          back = [None if b is None else b.value for b in oc.to_metrics(lab.copy())]
+          arg = lab.copy()
+          back = decode_labels(R, oc, arg[:, 0] if case.get('shape1d') else arg, tagk)
+          if back is None:
+            return False
     # ---- oracles -----------------------------------------------------------------
     if lab.shape != (len(vals), 1):
       R.v(f'label-shape:{via}', f'labels shape {lab.shape}, documented ({len(vals)},1)', None)
